@@ -550,7 +550,7 @@ def check_C14(ctx):
     b = Batch()
     recs = []
     for _ in range(n):
-        e = gen.rexpr(rng, rng.randint(1, 10), [2, 3, 4][:rng.randint(1, 3)], p_const=0.2)
+        e = gen.rexpr(rng, rng.randint(1, 10), [2, 3, 4][:rng.randint(0, 3)], p_const=0.2)
         ids = sx.var_ids(e)
         es = sx.to_sx(e)
         sub = [i for i in ids if rng.random() < 0.65]
@@ -567,7 +567,7 @@ def check_C14(ctx):
             ('DIFFAT', 'DIFFAT %s %s' % (ps, es)), ('PEARLY', 'PEARLY %d %s %s' % (v, ps, es)),
             ('DEARLYAT', 'DEARLYAT %d %s %s' % (v, ps, es)), ('DEARLYALL', 'DEARLYALL %s %s' % (ps, es)),
             ('ATNUM', 'ATNUM %s %s' % (sx.num_sx(1.5), es)), ('DERIVNUM', 'DERIVNUM %s %s' % (sx.num_sx(1.5), es)),
-            ('VARS', 'VARS %s' % es))}
+            ('DERIV', 'DERIV %s %s' % (ps, es)), ('VARS', 'VARS %s' % es))}
         recs.append((e, p, v, set(sub) >= set(ids), idx))
     names = b.add('NAMES')
     b.run()
@@ -580,7 +580,7 @@ def check_C14(ctx):
                     'at': b.impl[idx['EVAL']], 'partial': b.impl[idx['FWD']]})
         if supplied:
             rep.stats['supplied'] += 1
-            for r in ('EVAL', 'FWD', 'REV', 'DIFFAT', 'PEARLY', 'DEARLYAT', 'DEARLYALL'):
+            for r in ('EVAL', 'FWD', 'REV', 'DIFFAT', 'PEARLY', 'DEARLYAT', 'DEARLYALL', 'DERIV'):
                 if kind(b.impl[idx[r]]) == 'COORD':
                     rep.oracle_fail('%s raised CoordinateMissing although every variable of the expression is supplied' % r,
                                     b, [idx[r]])
@@ -589,7 +589,7 @@ def check_C14(ctx):
             if kind(b.impl[idx['EVAL']]) == 'VAL':
                 rep.oracle_fail('at() returned a number although a variable of the expression has no coordinate', b, [idx['EVAL']])
         nv = len(sx.var_ids(e))
-        for r in ('ATNUM', 'DERIVNUM'):
+        for r in ('ATNUM', 'DERIVNUM', 'DERIV'):
             acc = kind(b.impl[idx[r]]) != 'REJECT'
             if acc != (nv <= 1):
                 rep.oracle_fail('%s %s a bare number for an expression with %d variables' % (
